@@ -1,14 +1,13 @@
 use std::{cmp::min, fmt::Debug};
 
 use nom::{
-    bytes::complete::tag,
-    error::{Error, ErrorKind, ParseError},
+    error::{ErrorKind, ParseError},
     Err, FindSubstring, IResult, Input as _, Offset, Parser,
 };
 
 use crate::input::Input;
 
-use super::error::{ErrorTree, ParserResult};
+use super::error::ErrorTree;
 
 #[allow(dead_code)]
 pub fn debug_result<'a, F>(
@@ -132,32 +131,26 @@ pub fn take_until_and_not<'a>(
     however_tag: &'a str,
 ) -> impl Parser<Input<'a>, Output = &'a str, Error = ErrorTree<'a>> {
     move |i: Input<'a>| {
-        fn recursive_until<'a>(
-            i: Input<'a>,
-            index: usize,
-            t1: &'a str,
-            t2: &'a str,
-        ) -> ParserResult<'a, &'a str> {
-            match (
-                (i.slice(index..)).find_substring(t1),
-                (i.slice(index..)).find_substring(t2),
-            ) {
-                (None, _) => Err(Err::Error(ErrorTree::from_error_kind(
+        let text = i.inner();
+        // start of the text that has not been searched yet
+        let mut index = 0;
+        loop {
+            let Some(end) = text[index..].find(end_tag) else {
+                return Err(Err::Error(ErrorTree::from_error_kind(
                     i,
                     ErrorKind::TakeUntil,
-                ))),
-                (Some(offset), None) => {
-                    Ok(i.take_split(index + offset)).map(|(rem, res)| (rem, res.into_inner()))
+                )));
+            };
+            match text[index..].find(however_tag) {
+                // the `however_tag` does not come after the end tag: skip it and search on.
+                // If the end tag comes first, a later `however_tag` belongs to some other token
+                Some(however) if however <= end => index += however + however_tag.len(),
+                _ => {
+                    let (rem, res) = i.take_split(index + end);
+                    return Ok((rem, res.into_inner()));
                 }
-                // the end tag comes first: a later `however_tag` belongs to some other token
-                (Some(offset), Some(however_offset)) if offset < however_offset => {
-                    Ok(i.take_split(index + offset)).map(|(rem, res)| (rem, res.into_inner()))
-                }
-                (Some(_), Some(offset)) => recursive_until(i, index + offset + t2.len(), t1, t2),
             }
         }
-        let res: ParserResult<'_, _> = recursive_until(i, 0, end_tag, however_tag);
-        res
     }
 }
 
@@ -174,33 +167,43 @@ pub fn take_until_unbalanced<'a>(
     closing_tag: &'a str,
 ) -> impl Parser<Input<'a>, Output = &'a str, Error = ErrorTree<'a>> {
     move |i: Input<'a>| {
+        let text = i.inner();
+        let find_from = |tag: &str, from: usize| text[from..].find(tag).map(|at| from + at);
+        // The next occurrence of each tag is looked up again only after the scan has moved
+        // past it, so that the text is searched once per tag.
+        let mut next_opening = find_from(opening_tag, 0);
+        let mut next_closing = find_from(closing_tag, 0);
+        // end of the last tag that was consumed
         let mut index = 0;
-        let mut bracket_counter = 0;
-        'consume: loop {
-            let input = i.slice(index..);
-
-            if tag::<&str, Input<'_>, Error<Input<'_>>>(opening_tag)(input.clone()).is_ok() {
-                bracket_counter += 1;
-                index += opening_tag.len();
-            } else if tag::<&str, Input<'_>, Error<Input<'_>>>(closing_tag)(input).is_ok() {
-                bracket_counter -= 1;
-                index += closing_tag.len();
-            } else if index + 1 >= i.len() {
-                break 'consume;
-            } else {
-                let c = i.slice(index..).inner().chars().next().unwrap_or_default();
-                index += c.len_utf8();
+        // number of opening tags that still lack their closing tag
+        let mut depth = 0_usize;
+        loop {
+            if next_opening.is_some_and(|at| at < index) {
+                next_opening = find_from(opening_tag, index);
             }
-
-            // We found the unmatched closing bracket.
-            if bracket_counter == -1 {
-                // We do not consume it.
-                index -= closing_tag.len();
-                return Ok((i.slice(index..), i.slice(0..index).into_inner()));
-            };
+            if next_closing.is_some_and(|at| at < index) {
+                next_closing = find_from(closing_tag, index);
+            }
+            // the tag that comes first counts; the opening tag has precedence
+            let opening = next_opening.filter(|o| next_closing.is_none_or(|c| *o <= c));
+            match (opening, next_closing) {
+                (Some(opening), _) => {
+                    depth += 1;
+                    index = opening + opening_tag.len();
+                }
+                (None, Some(closing)) if depth == 0 => {
+                    // We found the unmatched closing tag. We do not consume it.
+                    return Ok((i.slice(closing..), i.slice(0..closing).into_inner()));
+                }
+                (None, Some(closing)) => {
+                    depth -= 1;
+                    index = closing + closing_tag.len();
+                }
+                (None, None) => break,
+            }
         }
 
-        if bracket_counter == 0 {
+        if depth == 0 {
             Ok(("".into(), i.into_inner()))
         } else {
             Err(Err::Error(ErrorTree::from_error_kind(
